@@ -153,6 +153,28 @@ def handle (op : String) (args : List String) (impl : String) : Option Verdict :
     let own := ss.all fun s => s.sessionId == toHex s.msg
     let m := s!"n={n};sessions={ss.length};distinct={if distinct then 1 else 0};own={if own then 1 else 0};digests=1"
     return ⟨m, impl == m, s!"btcsessions:n={n}"⟩
+  | "btcwitness", [n, arrivals, _seed] => some <| Id.run do
+    let some n := n.toNat? | return bad
+    let sigOf : Nat → Bytes := fun i => [UInt8.ofNat (i + 1)]
+    let some arr := (items arrivals ",").mapM (fun (t : String) =>
+      if t = "n" then some (none : Option (Nat × Bytes)) else t.toNat?.map fun i => some (i, sigOf i)) | return bad
+    let bits (xs : List Bool) : String := joinOr (xs.map fun b => if b then "1" else "0") ","
+    let m := match collect n arr with
+      | .sent ws =>
+        let own := (List.range n).map fun i => ws.getD i [] == [sigOf i]
+        -- a signature verifies for an input iff it was made over that input's digest
+        s!"ret=nil;sent=1;valid={bits own};own={bits own}"
+      | .waiting => "ret=err;sent=0;valid=-;own=-"
+      | .panic => "panic"
+    -- the property on the implementation's output: whatever was submitted, every input verifies under the output key
+    -- over its own digest (and nothing is submitted twice)
+    let f := impl.splitOn ";"
+    let sent := (f.find? (·.startsWith "sent=")).getD ""
+    let valid := (f.find? (·.startsWith "valid=")).getD ""
+    let ok := sent == "sent=0" && valid == "valid=-" ||
+      sent == "sent=1" && valid == "valid=" ++ bits (List.replicate n true)
+    let inOrder := arr.filterMap id |>.map (·.1)
+    return ⟨m, ok && (impl == m || sent == "sent=0"), s!"btcwitness:n={n}:sorted={decide (inOrder.Pairwise (· ≤ ·))}:dups={inOrder.eraseDups.length != inOrder.length}"⟩
   | "resharerun", _ => some ⟨"ok", impl == "ok", "resharerun"⟩
   | "signrun", _ => some ⟨"ok", impl == "ok", "signrun"⟩
   | "keygenrun", _ => some ⟨"ok", impl == "ok", "keygenrun"⟩
